@@ -7,10 +7,13 @@ use sux::utils::FromIntoIterator;
 
 /// executable twin of the C08 contracts: every key is a member through both query paths; with b hash bits the number of
 /// false positives among `probes` non-keys stays below probes / 2^b * 8 + 8 (for b = BITS of a 64-bit word: none at all)
-/// input: [n, filter_bits, word (0 = u64 bit-field, 1 = u16 bit-field, 2 = boxed u8)]; the builder is given the exact key count
-/// (without it, 100_000 < n <= 800_000 trips a debug assertion of lin_log2_seg_size in the builder: C07 territory, noted in DESIGN.md 9.5)
+/// input: [n, filter_bits, word (0 = u64 bit-field, 1 = u16 bit-field, 2 = boxed u8), hint (0 = exact key count, 1 = none, 2 = 4n/3, 3 = n/2, 4 = 3n)]:
+/// expected_num_keys is only a hint, the filter must be right whatever it says
+fn with_hint<W: sux::traits::Word + epserde::traits::ZeroCopy, D: sux::traits::bit_field_slice::BitFieldSlice<W> + Send + Sync>(b: VBuilder<W, D>, hint: Option<usize>) -> VBuilder<W, D> { match hint { Some(h) => b.expected_num_keys(h), None => b } }
+
 fn case(inp: &[u64]) -> Result<(), String> {
     let (n, bits, kind) = (inp[0] as usize, inp[1] as usize, inp[2] % 3);
+    let hint: Option<usize> = match inp.get(3).copied().unwrap_or(0) % 5 { 0 => Some(n), 1 => None, 2 => Some(n + n / 3), 3 => Some(n / 2), _ => Some(3 * n) };
     let probes = 4000usize;
     macro_rules! check { ($f:expr, $b:expr, $unal:expr) => {{
         let f = $f;
@@ -24,15 +27,15 @@ fn case(inp: &[u64]) -> Result<(), String> {
     }} }
     match kind {
         0 => { let b = bits.clamp(1, 64);
-               let f: VFilter<u64, VFunc<usize, u64, BitFieldVec<u64>>> = VBuilder::<u64, BitFieldVec<u64>>::default().offline(false).expected_num_keys(n)
+               let f: VFilter<u64, VFunc<usize, u64, BitFieldVec<u64>>> = with_hint(VBuilder::<u64, BitFieldVec<u64>>::default().offline(false), hint)
                    .try_build_filter(FromIntoIterator::from(0..n), b, no_logging![]).map_err(|e| e.to_string())?;
                if b <= 58 || b == 60 || b == 64 { for k in 0..n { if !f.contains_unaligned(k) { return Err(format!("key {} is a false negative (unaligned)", k)); } } }
                check!(f, b, true) }
         1 => { let b = bits.clamp(1, 16);
-               let f: VFilter<u16, VFunc<usize, u16, BitFieldVec<u16>>> = VBuilder::<u16, BitFieldVec<u16>>::default().offline(false).expected_num_keys(n)
+               let f: VFilter<u16, VFunc<usize, u16, BitFieldVec<u16>>> = with_hint(VBuilder::<u16, BitFieldVec<u16>>::default().offline(false), hint)
                    .try_build_filter(FromIntoIterator::from(0..n), b, no_logging![]).map_err(|e| e.to_string())?;
                check!(f, b, false) }
-        _ => { let f: VFilter<u8, VFunc<usize, u8, Box<[u8]>>> = VBuilder::<u8, Box<[u8]>>::default().offline(false).expected_num_keys(n)
+        _ => { let f: VFilter<u8, VFunc<usize, u8, Box<[u8]>>> = with_hint(VBuilder::<u8, Box<[u8]>>::default().offline(false), hint)
                    .try_build_filter(FromIntoIterator::from(0..n), no_logging![]).map_err(|e| e.to_string())?;
                check!(f, 8usize, false) }
     }
@@ -47,6 +50,6 @@ pub fn run(case_name: &str, ctx: &mut Ctx, one: Option<&str>, rng: &mut Rng, bud
         let v = vec![n, bits, kind]; let s = fmt_list(&v); ctx.trial(&s, false, || case(&v));
     } } }
     // sizes at which the default ShardEdge splits the keys into several shards (100_000 ..= 800_000 keys)
-    if budget >= 1000 { for (n, bits, kind) in [(100_000u64, 9u64, 0u64), (200_000, 64, 0), (300_000, 16, 1), (150_000, 8, 2), (810_000, 5, 0)] { let v = vec![n, bits, kind]; let s = fmt_list(&v); ctx.trial(&s, false, || case(&v)); } }
-    for _ in 0..budget.min(20) { let v = vec![rng.below(3000), 1 + rng.below(64), rng.below(3)]; let s = fmt_list(&v); ctx.trial(&s, false, || case(&v)); }
+    if budget >= 1000 { for (n, bits, kind, hint) in [(100_000u64, 9u64, 0u64, 0u64), (200_000, 64, 0, 0), (300_000, 16, 1, 0), (150_000, 8, 2, 0), (810_000, 5, 0, 0), (90_000, 10, 0, 2), (120_000, 10, 0, 3), (150_000, 12, 0, 4), (120_000, 7, 1, 1), (250_000, 8, 2, 3)] { let v = vec![n, bits, kind, hint]; let s = fmt_list(&v); ctx.trial(&s, false, || case(&v)); } }
+    for _ in 0..budget.min(20) { let v = vec![rng.below(3000), 1 + rng.below(64), rng.below(3), rng.below(5)]; let s = fmt_list(&v); ctx.trial(&s, false, || case(&v)); }
 }
